@@ -185,6 +185,10 @@ StrictOutcomes(st, c) ==
                    ELSE IF c.op = "readat" /\ c.n = 0 THEN {Ok(st)}
                    ELSE IF c.op = "writeat" /\ c.data = <<>> THEN {Ok(st)}
                    ELSE {})
+    ELSE IF c.op = "removeall"
+        \* several entries may refuse to go: which refusal is reported depends on the (unspecified) listing order
+        THEN LET x == RemoveAllX(st, c) IN
+             IF x.errs = {} THEN {[res |-> x.res, st |-> x.st]} ELSE {[res |-> [x.res EXCEPT !.err = e], st |-> x.st] : e \in x.errs}
     ELSE {BaseApply(st, c)}
 
 (***************************************************************************)
